@@ -102,6 +102,10 @@ func cloneContext(src *ReceiveContext) *ReceiveContext {
 	dst.requestID = src.requestID
 	dst.requestReplyTo = src.requestReplyTo
 	dst.err = src.err
+	// responseClosed is never reset when a context returns to the pool: without
+	// this a clone taken from a context that once served a completed Ask would
+	// drop the reply of the stashed Ask message.
+	dst.responseClosed.Store(src.responseClosed.Load())
 	return dst
 }
 
